@@ -381,6 +381,9 @@ class symeig_torchfcn(torch.autograd.Function):
             inputs=params,
             grad_outputs=(gaccumA,),
             create_graph=torch.is_grad_enabled(),
+            # two slots of the operator can address the same attribute of the
+            # same object: only the copy written last is in use then
+            allow_unused=True,
         )
 
         grad_mparams = []
@@ -408,6 +411,7 @@ class symeig_torchfcn(torch.autograd.Function):
                 inputs=mparams,
                 grad_outputs=(gaccumM,),
                 create_graph=torch.is_grad_enabled(),
+                allow_unused=True,
             )
 
         return (None, None, None, None, None, None, None, *grad_params, *grad_mparams)
